@@ -291,7 +291,14 @@ pub fn gen_c16(rng: &mut Rng, tier: Tier) -> Case {
     // history: keys are synthesized from the counter range
     let pick_key = |rng: &mut Rng| -> Vec<u8> {
         let x = rng.range(0, 5 + n * stride + 3);
-        x.to_be_bytes()[8 - width as usize..].to_vec()
+        let mut k = x.to_be_bytes()[8 - width as usize..].to_vec();
+        match rng.below(8) {
+            // probes that are proper prefixes of many stored keys, or extensions of one
+            0 | 1 => k.truncate(rng.urange(0, width as usize - 1)),
+            2 => k.push(rng.below(256) as u8),
+            _ => {}
+        }
+        k
     };
     let n_ops = rng.urange(1, if tier == Tier::Quick { 40 } else { 120 });
     let mut steps = Vec::new();
